@@ -267,6 +267,14 @@ func (r *FeatureLocal) CleanWriteApprovalCaches(ski string) {
 	r.muxResponseCB.Lock()
 	defer r.muxResponseCB.Unlock()
 
+	// stop the pending timeouts, otherwise they would still send
+	// an error result to the connection that is being removed
+	for _, timer := range r.pendingWriteApprovals[ski] {
+		if timer != nil {
+			timer.Stop()
+		}
+	}
+
 	delete(r.pendingWriteApprovals, ski)
 	delete(r.writeApprovalReceived, ski)
 }
